@@ -264,7 +264,7 @@ Definition is_search_layer (nd : node) : bool :=
 Definition is_cat (nd : node) : bool := match nd with NCat _ => true | _ => false end.
 
 Definition members (nt : net) (L : nat) : list nat :=
-  filter (fun j => nth j (labels nt) 0 =? L) (seq 0 (length nt)).
+  let ls := labels nt in filter (fun j => nth j ls 0 =? L) (seq 0 (length nt)).
 Definition any_member (nt : net) (L : nat) (p : nat -> node -> bool) : bool :=
   existsb (fun j => p j (node_at nt j)) (members nt L).
 
@@ -282,10 +282,11 @@ Definition frozen_basic (fixd : bool) (nt : net) (L : nat) : bool :=
                        || (1 <? length (filter (fun j => is_cat (node_at nt j)) (members nt L))))))).
 (* closure: a pinned component that contains a concatenation pins the components of its operands *)
 Definition pin_round (nt : net) (F : list nat) : list nat :=
-  F ++ flat_map (fun j => match node_at nt j with
-                          | NCat l => if existsb (Nat.eqb (nth j (labels nt) 0)) F
-                                      then map (fun s => nth s (labels nt) 0) l else []
-                          | _ => [] end) (seq 0 (length nt)).
+  let ls := labels nt in
+  dedup (F ++ flat_map (fun j => match node_at nt j with
+                          | NCat l => if existsb (Nat.eqb (nth j ls 0)) F
+                                      then map (fun s => nth s ls 0) l else []
+                          | _ => [] end) (seq 0 (length nt))).
 Definition pinned (fixd : bool) (nt : net) : list nat :=
   let F0 := filter (frozen_basic fixd nt) (dedup (labels nt)) in
   if fixd then dedup (Nat.iter (length nt) (pin_round nt) F0) else F0.
